@@ -514,7 +514,12 @@ def predict_warnings(text, in_policy, encoding, query_kind, out_policy, out_deli
             out_rows.append([a1, a2])
     if any(v is None for r in out_rows for v in r):
         exp.append(('none', ()))
-    if out_policy == 'simple' and any(out_delim in (v or '') for r in out_rows for v in r):
+    if out_policy == 'simple' and len(out_delim) > 1 and query_kind in ('star', 'two'):
+        # a separator of several characters can also come about at the border of two fields ('key:' + '::' + ':value'): what is reported is that
+        # the written line no longer reads back as the same number of fields (both ports decide it that way; equal to "some field contains it" for one character)
+        if any(len(out_delim.join('' if v is None else v for v in r).split(out_delim)) != len(r) for r in out_rows if r):
+            exp.append(('sep', ()))
+    elif out_policy == 'simple' and any(out_delim in (v or '') for r in out_rows for v in r):
         exp.append(('sep', ()))
     return sorted(exp, key=lambda x: x[0])
 
@@ -565,7 +570,7 @@ def leg_warnings(ns, res, spec):
     anomalies = {
         'ragged': ['a', 'a,b,c', ''],
         'quote': ['a"b,c', 'x,y"', 'a"b', '"x"y', 'y"', '"p" q'],      # with and without a delimiter in the record
-        'sepfield': ['p;q,r', ';,;'],
+        'sepfield': ['p;q,r', ';,;', 'k:,:v', 'p|,|q', 'a::b,c', ':,:', 'x||y,|'],
     }
     count = 0
     js_cases = []
@@ -588,6 +593,9 @@ def leg_warnings(ns, res, spec):
                 text = rng.choice(['é', '€', 'ï»¿', ' ']) + text      # a non-ASCII first character that is not a BOM
             query_kind = rng.choice(['star', 'two', 'two', 'list', 'agg'])
             out_policy, out_delim = rng.choice([('simple', ';'), ('quoted', ','), ('simple', '\t')])
+            if query_kind in ('star', 'two') and rng.random() < 0.35:
+                out_policy, out_delim = 'simple', rng.choice(['::', '||'])
+                res.count('multi_character_output_separator_cases')
             exp = predict_warnings(text, 'quoted', encoding, query_kind, out_policy, out_delim)
             if exp is None:
                 continue
